@@ -3,10 +3,12 @@
 //   queue      <lanes> <alg:fifo|name> <policy:now|drain> <jobs>      job mixes through the lane queue
 //   serial     (same line format; <lanes>/<alg> ignored)               job mixes through createSerialQueue
 //   order      <alg> <jobs>                                            1 lane, all jobs queued behind a gate: pop order
-//   proc       exit|sig|out|early|release|noexe|env ...                real children, one launch per line
+//   proc       exit|sig|out|slowout|early|release|noexe|env ...        real children, one launch per line
 //   cancelrace <lanes> <jobs> <delayUs> <childSleepMs> <trapint> <safe>  cancelAllJobs racing executeProcess
 //   lanerelease <sleepMs>                                              control-channel lane release frees the lane
 //   pollfail                                                           poll() failure injected in spawnProcess (single shot)
+//   cancelphase <lanes> <trigger> <cancelDelayMs> <destroyDelayMs> <procs>   cancellation at a chosen phase of chosen children,
+//              then destruction of the queue; see mode_cancelphase for the grammar
 //   child ...                                                          (internal) the spawned child
 // jobs := comma separated  id:key:high:parent:durUs:flags   parent '-' = added by the main thread, in order;
 //         flags: c = calls cancelAllJobs, n = null descriptor (QueueJob{}), e = adds its children after its work,
@@ -25,17 +27,20 @@
 #include <atomic>
 #include <chrono>
 #include <condition_variable>
+#include <fstream>
 #include <future>
 #include <map>
 #include <memory>
 #include <mutex>
 #include <thread>
 
+#include <dirent.h>
 #include <errno.h>
 #include <fcntl.h>
 #include <signal.h>
 #include <sys/resource.h>
 #include <sys/stat.h>
+#include <sys/wait.h>
 #include <unistd.h>
 
 using namespace llbuild;
@@ -116,6 +121,30 @@ static int childMain(int argc, char** argv) {
     for (char** p = environ; *p; ++p) { std::string l = vh::hexEncode(*p) + "\n"; writeAll(1, l.data(), l.size()); }
     return 0;
   }
+  if (k == "life") {
+    // life <ignMask> <relMs> <lifeMs> <code> <outBytes> <seed> <outFirst>
+    //   ignMask: 1 = ignore SIGINT, 2 = ignore SIGTERM;  relMs: >= 0 release the lane over the control channel after relMs,
+    //   -1 never, -2 well-formed message with a wrong task id, -3 wrong protocol version
+    long long ign = num(3), rel = num(4), life = num(5), code = num(6), nout = num(7), seed = num(8), outFirst = num(9);
+    if (ign & 1) signal(SIGINT, SIG_IGN);
+    if (ign & 2) signal(SIGTERM, SIG_IGN);
+    if (outFirst) emitPattern((uint64_t)nout, (uint64_t)seed, 4096);
+    const char* fd = getenv("LLBUILD_CONTROL_FD");
+    const char* tid = getenv("LLBUILD_TASK_ID");
+    if (rel != -1 && fd && tid) {
+      if (rel > 0) usleep((useconds_t)rel * 1000);
+      std::string msg = std::string(rel == -3 ? "llbuild.9\n" : "llbuild.1\n") + (rel == -2 ? "ffff" : "") + tid + "\n";
+      writeAll(atoi(fd), msg.data(), msg.size());
+    }
+    double end = nowMs() + (double)life;
+    for (;;) {
+      double rem = end - nowMs();
+      if (rem <= 0) break;
+      usleep((useconds_t)(std::min(50.0, rem) * 1000.0) + 50);
+    }
+    if (!outFirst) emitPattern((uint64_t)nout, (uint64_t)seed, 4096);
+    return (int)code;
+  }
   if (k == "sleep") {
     if (num(4)) signal(SIGINT, SIG_IGN);
     usleep((useconds_t)num(3) * 1000);
@@ -174,6 +203,11 @@ struct Launch : public ProcessDelegate {
   double startedAt = 0, completedAt = 0;
   std::promise<void> done;
   std::function<void(Launch&)> onStarted, onError;
+  // cancelphase: hold the reader inside processHadOutput until the gate opens (the child can exit meanwhile and stays unreaped)
+  bool gateEnabled = false, gateOpen = false, gateReached = false;
+  std::condition_variable gateCv;
+  int slowFinishMs = 0;                 // time spent inside processFinished
+  int slowOutputUs = 0;                 // time spent per processHadOutput call
 
   void processStarted(ProcessContext*, ProcessHandle, llbuild_pid_t p) override {
     { std::lock_guard<std::mutex> g(m); started++; pid = (long)p; startedAt = nowMs(); }
@@ -184,13 +218,20 @@ struct Launch : public ProcessDelegate {
     if (onError) onError(*this);
   }
   void processHadOutput(ProcessContext*, ProcessHandle, StringRef data) override {
-    std::lock_guard<std::mutex> g(m);
+    if (slowOutputUs) std::this_thread::sleep_for(std::chrono::microseconds(slowOutputUs));
+    std::unique_lock<std::mutex> g(m);
+    if (gateEnabled && !gateOpen) {
+      gateReached = true;
+      gateCv.notify_all();
+      gateCv.wait_for(g, std::chrono::seconds(10), [&] { return gateOpen; });
+    }
     if (finished || completions) outputAfterFinish = true;
     md5.update(data);
     outLen += data.size();
     if (keepOutput) output += data.str();
   }
   void processFinished(ProcessContext*, ProcessHandle, const ProcessResult& r) override {
+    if (slowFinishMs) std::this_thread::sleep_for(std::chrono::milliseconds(slowFinishMs));
     std::lock_guard<std::mutex> g(m);
     if (completions) completionBeforeFinished = true;
     finished++;
@@ -408,7 +449,17 @@ static std::string launchLine(Launch& L, bool timedOut) {
 
 static bool processGone(long pid) {
   if (pid <= 0) return true;
-  return kill((pid_t)pid, 0) == -1 && errno == ESRCH;
+  if (kill((pid_t)pid, 0) == -1 && errno == ESRCH) return true;
+  // something has this pid: a child of ours that was not reaped, or (rarely) an unrelated process that got the recycled number
+  std::ifstream st("/proc/" + std::to_string(pid) + "/stat");
+  std::string l;
+  if (!st || !std::getline(st, l)) return true;
+  size_t rp = l.rfind(')');
+  if (rp == std::string::npos) return false;
+  std::istringstream is(l.substr(rp + 1));
+  std::string state; long ppid = -1;
+  is >> state >> ppid;
+  return ppid != (long)getpid();
 }
 
 static void mode_proc() {
@@ -429,7 +480,12 @@ static void mode_proc() {
     std::unique_ptr<ExecutionQueue> ownQ;
     std::vector<std::string> baseStore;
     std::vector<const char*> basePtrs;
-    if (kind == "exit" || kind == "sig" || kind == "out" || kind == "early" || kind == "release") {
+    if (kind == "slowout" && f.size() == 6) {
+      // slowout <bytes> <seed> <chunk> <code> <usPerCallback>: the child writes a burst and exits at once; the delegate is slow
+      op->argv = {selfExe, "child", "out", f[1], f[2], f[3], f[4]};
+      op->launch->slowOutputUs = atoi(f[5].c_str());
+      op->attrs.controlEnabled = (n % 2) == 0;
+    } else if (kind == "exit" || kind == "sig" || kind == "out" || kind == "early" || kind == "release") {
       op->argv = {selfExe, "child", kind};
       for (size_t i = 1; i < f.size(); i++) op->argv.push_back(f[i]);
       if (kind != "release") op->attrs.controlEnabled = (n % 2) == 0;
@@ -579,6 +635,213 @@ static void mode_pollfail() {
   _exit(0);
 }
 
+// ------------------------------------------------------------------------------------------------
+// cancelphase: cancellation at a chosen phase of chosen children, then destruction of the queue
+// ------------------------------------------------------------------------------------------------
+// line:  <lanes> <trigger> <cancelDelayMs> <destroyDelayMs> <procs>
+//   trigger  never            no cancellation: the queue is destroyed right after the jobs were added
+//            pre              cancelAllJobs() before any job is added
+//            added            right after the last addJob
+//            start:<i>        after processStarted of launch i                     (child running, lane held)
+//            rel:<i>          after executeProcess of launch i returned without a completion (lane released, child running)
+//            zombie:<i>       after child i exited while its reader is held inside processHadOutput (exited, not reaped)
+//            done:<i>         after the completion of launch i
+//   then <cancelDelayMs> later cancelAllJobs() is called from the main (foreign) thread, the gates are opened,
+//   and <destroyDelayMs> after it returned the queue is destroyed.  <destroyDelayMs> = <d>: first wait until every thread
+//   that cancelAllJobs() started is parked (the escalation thread sits in its timed wait), then d ms;  r<d>: d ms, no such wait.
+//   procs := comma separated  safe:ign:rel:life:code:out:ctl:first:slowfin
+//            safe = canSafelyInterrupt, ign = mask (1 SIGINT, 2 SIGTERM) of signals the child ignores,
+//            rel = ms before the child releases its lane (-1 never, -2 wrong id, -3 wrong protocol), life = ms the child runs
+//            after that, code = exit code, out = bytes of output, ctl = controlEnabled, first = output before (1) / after (0) the
+//            life time, slowfin = ms the delegate spends in processFinished
+// output: one line; scenario fields and per launch  p<i>=<colon separated>, see the code
+struct PhaseProc {
+  bool safe = true; int ign = 0; long rel = -1, life = 0; int code = 0; long out = 0; bool ctl = true, first = false; int slowfin = 0;
+  uint64_t seed = 0;
+  std::unique_ptr<Launch> launch{new Launch};
+  std::unique_ptr<Desc> desc;
+  std::atomic<int> jobRuns{0};
+  std::atomic<bool> jobReturned{false}, releasedSeen{false};
+  double jobReturnedAt = 0;
+};
+
+static bool childIsZombie(long pid) {
+  if (pid <= 0) return false;
+  siginfo_t si;
+  memset(&si, 0, sizeof si);
+  if (waitid(P_PID, (id_t)pid, &si, WEXITED | WNOHANG | WNOWAIT) != 0) return false;
+  return si.si_pid == (pid_t)pid;
+}
+
+// threads of this process; used to tell when the thread that cancelAllJobs() starts (killAfterTimeout) is parked in its timed wait
+static std::vector<long> listTids() {
+  std::vector<long> out;
+  DIR* d = opendir("/proc/self/task");
+  if (!d) return out;
+  while (struct dirent* e = readdir(d)) if (e->d_name[0] != '.') out.push_back(atol(e->d_name));
+  closedir(d);
+  std::sort(out.begin(), out.end());
+  return out;
+}
+
+// gone, or sleeping in a system call other than an untimed futex wait (= blocked on a mutex / plain condition wait)
+static bool tidParked(long tid) {
+  std::string base = "/proc/self/task/" + std::to_string(tid);
+  std::ifstream st(base + "/stat");
+  std::string l;
+  if (!st || !std::getline(st, l)) return true;
+  size_t rp = l.rfind(')');
+  if (rp == std::string::npos || rp + 2 >= l.size()) return false;
+  char state = l[rp + 2];
+  if (state == 'Z' || state == 'X') return true;
+  if (state != 'S') return false;
+  std::ifstream sc(base + "/syscall");
+  std::string c;
+  if (!sc || !std::getline(sc, c)) return true;          // not readable here: sleeping is all we can tell
+  auto a = vh::split(c);
+  if (a.size() >= 5 && a[0] == "202") return a[4] != "0x0";   // futex: timed wait only
+  return a[0] != "running";
+}
+
+static void mode_cancelphase() {
+  setenv("LLBUILD_TEST", "1", 1);   // SIGKILL escalation after 1 s instead of 10 s
+  std::string line;
+  while (std::getline(std::cin, line)) {
+    auto f = vh::split(line);
+    if (f.size() != 5) { std::cout << "bad-op\n"; continue; }
+    int lanes = atoi(f[0].c_str());
+    std::string trig = f[1];
+    int trigIdx = -1;
+    { auto c = trig.find(':'); if (c != std::string::npos) { trigIdx = atoi(trig.substr(c + 1).c_str()); trig = trig.substr(0, c); } }
+    bool rawDestroy = !f[3].empty() && f[3][0] == 'r';
+    int cancelDelay = atoi(f[2].c_str()), destroyDelay = atoi(f[3].c_str() + (rawDestroy ? 1 : 0));
+    std::vector<std::unique_ptr<PhaseProc>> ps;
+    bool bad = false;
+    for (auto& spec : vh::split(f[4], ',')) {
+      auto a = vh::split(spec, ':');
+      if (a.size() != 9) { bad = true; break; }
+      std::unique_ptr<PhaseProc> p(new PhaseProc);
+      p->safe = a[0] == "1"; p->ign = atoi(a[1].c_str()); p->rel = atol(a[2].c_str()); p->life = atol(a[3].c_str());
+      p->code = atoi(a[4].c_str()); p->out = atol(a[5].c_str()); p->ctl = a[6] == "1"; p->first = a[7] == "1"; p->slowfin = atoi(a[8].c_str());
+      p->seed = 1000003ull * (ps.size() + 1);
+      p->desc.reset(new Desc((int)ps.size(), (long)ps.size()));
+      p->launch->slowFinishMs = p->slowfin;
+      ps.push_back(std::move(p));
+    }
+    if (bad || ps.empty() || (trigIdx >= (int)ps.size())) { std::cout << "bad-op\n"; continue; }
+    if (trig == "zombie") ps[trigIdx]->launch->gateEnabled = true;
+
+    QDelegate del;
+    ExecutionQueue* q = createLaneBasedExecutionQueue(del, lanes, SchedulerAlgorithm::FIFO, QualityOfService::Normal, nullptr);
+    std::mutex em; std::condition_variable ecv;             // events: started / job returned / completed
+    std::atomic<int> inflight{0}, peak{0};
+    double t0 = nowMs();
+    double cancelAt = -1, cancelRet = -1;
+    bool settled = true;
+    auto doCancel = [&] {
+      std::vector<long> before = listTids();
+      cancelAt = nowMs(); q->cancelAllJobs(); cancelRet = nowMs();
+      if (rawDestroy) return;
+      settled = false;
+      for (int spin = 0; spin < 20000 && !settled; spin++) {
+        settled = true;
+        for (long t : listTids()) if (!std::binary_search(before.begin(), before.end(), t) && !tidParked(t)) settled = false;
+        if (!settled) std::this_thread::sleep_for(std::chrono::microseconds(100));
+      }
+    };
+    if (trig == "pre") { if (cancelDelay) std::this_thread::sleep_for(std::chrono::milliseconds(cancelDelay)); doCancel(); }
+    for (auto& up : ps) {
+      PhaseProc* p = up.get();
+      p->launch->onStarted = [&em, &ecv](Launch&) { std::lock_guard<std::mutex> g(em); ecv.notify_all(); };
+      q->addJob(QueueJob(p->desc.get(), [q, p, &em, &ecv, &inflight, &peak](QueueJobContext* ctx) {
+        p->jobRuns++;
+        int c = ++inflight;
+        int pk = peak.load();
+        while (c > pk && !peak.compare_exchange_weak(pk, c)) {}
+        std::vector<std::string> av = {selfExe, "child", "life", std::to_string(p->ign), std::to_string(p->rel), std::to_string(p->life),
+                                       std::to_string(p->code), std::to_string(p->out), std::to_string(p->seed), p->first ? "1" : "0"};
+        std::vector<StringRef> argv(av.begin(), av.end());
+        ProcessAttributes attrs{p->safe};
+        attrs.controlEnabled = p->ctl;
+        Launch* L = p->launch.get();
+        ProcessCompletionFn fn = [L, &em, &ecv](ProcessResult r) { L->complete(r); std::lock_guard<std::mutex> g(em); ecv.notify_all(); };
+        q->executeProcess(ctx, llvm::ArrayRef<StringRef>(argv), llvm::ArrayRef<std::pair<StringRef, StringRef>>(), attrs,
+                          llvm::Optional<ProcessCompletionFn>(fn), L);
+        bool rel;
+        { std::lock_guard<std::mutex> g(L->m); rel = L->completions == 0; }
+        --inflight;
+        {
+          std::lock_guard<std::mutex> g(em);
+          p->jobReturnedAt = nowMs();
+          p->releasedSeen = rel;
+          p->jobReturned = true;
+          ecv.notify_all();
+        }
+      }));
+    }
+    bool trigHit = true;
+    if (trig != "never" && trig != "pre") {
+      if (trig != "added") {
+        PhaseProc* p = ps[trigIdx].get();
+        Launch* L = p->launch.get();
+        auto deadline = std::chrono::steady_clock::now() + std::chrono::seconds(4);
+        if (trig == "zombie") {
+          // the reader must be held in the gate and the child must have exited
+          trigHit = false;
+          while (std::chrono::steady_clock::now() < deadline) {
+            long pid; bool reached;
+            { std::lock_guard<std::mutex> g(L->m); pid = L->pid; reached = L->gateReached; }
+            if (reached && childIsZombie(pid)) { trigHit = true; break; }
+            std::this_thread::sleep_for(std::chrono::milliseconds(1));
+          }
+        } else {
+          std::unique_lock<std::mutex> lk(em);
+          trigHit = ecv.wait_until(lk, deadline, [&] {
+            std::lock_guard<std::mutex> g(L->m);
+            if (trig == "start") return L->started > 0 && L->pid > 0;
+            if (trig == "rel") return p->jobReturned.load() && p->releasedSeen.load();
+            return L->completions > 0;   // done
+          });
+        }
+      }
+      if (cancelDelay) std::this_thread::sleep_for(std::chrono::milliseconds(cancelDelay));
+      doCancel();
+    }
+    for (auto& p : ps) { std::lock_guard<std::mutex> g(p->launch->m); p->launch->gateOpen = true; p->launch->gateCv.notify_all(); }
+    if (destroyDelay) std::this_thread::sleep_for(std::chrono::milliseconds(destroyDelay));
+    double d0 = nowMs();
+    delete q;     // joins the lanes and the escalation thread; ~ProcessGroup waits until every registered child was reaped
+    double d1 = nowMs();
+    std::vector<int> goneAtDestroy;
+    for (auto& p : ps) { long pid; { std::lock_guard<std::mutex> g(p->launch->m); pid = p->launch->pid; } goneAtDestroy.push_back(processGone(pid) ? 1 : 0); }
+    // a released child's completion comes from a detached thread: allow it to arrive
+    bool allDone = true;
+    for (auto& p : ps) allDone &= p->launch->done.get_future().wait_for(std::chrono::seconds(8)) == std::future_status::ready;
+    std::this_thread::sleep_for(std::chrono::milliseconds(2));
+    std::ostringstream o;
+    o << "lanes=" << lanes << " peak=" << peak.load() << " trig_hit=" << (trigHit && settled ? 1 : 0)
+      << " cancel_at=" << (cancelAt < 0 ? -1 : (long)(cancelAt - t0)) << " cancel_ms=" << (cancelAt < 0 ? 0 : (long)(cancelRet - cancelAt))
+      << " destroy_at=" << (long)(d0 - t0) << " destroy_ms=" << (long)(d1 - d0) << " timeout=" << (allDone ? 0 : 1)
+      << " jobs_started=" << del.jobsStarted.load() << " jobs_finished=" << del.jobsFinished.load();
+    for (size_t i = 0; i < ps.size(); i++) {
+      PhaseProc& p = *ps[i];
+      Launch& L = *p.launch;
+      std::string md5 = L.md5hex();
+      std::lock_guard<std::mutex> g(L.m);
+      // completions:status:rawexit:started:finished:finstatus:pidvalid:late:cbf:goneAtDestroy:jobRuns:released:
+      // startedAtMs:completedAtMs:startedAfterCancelReturned:completedAfterDestroy:outlen:md5
+      o << " p" << i << "=" << L.completions << ":" << statusName(L.compStatus) << ":" << L.compExit << ":" << L.started << ":" << L.finished
+        << ":" << statusName(L.finStatus) << ":" << (L.pid > 0 ? 1 : 0) << ":" << (L.outputAfterFinish ? 1 : 0) << ":" << (L.completionBeforeFinished ? 1 : 0)
+        << ":" << goneAtDestroy[i] << ":" << p.jobRuns.load() << ":" << (p.releasedSeen.load() ? 1 : 0)
+        << ":" << (L.startedAt > 0 ? (long)(L.startedAt - t0) : -1) << ":" << (L.completedAt > 0 ? (long)(L.completedAt - t0) : -1)
+        << ":" << ((L.pid > 0 && cancelRet > 0 && L.startedAt > cancelRet) ? 1 : 0)
+        << ":" << ((L.completedAt > d1) ? 1 : 0) << ":" << L.outLen << ":" << md5;
+    }
+    std::cout << o.str() << "\n";
+    std::cout.flush();
+  }
+}
+
 int main(int argc, char** argv) {
   std::ios::sync_with_stdio(false);
   if (argc < 2) return 2;
@@ -595,6 +858,7 @@ int main(int argc, char** argv) {
   else if (mode == "cancelrace") mode_cancelrace();
   else if (mode == "lanerelease") mode_lanerelease();
   else if (mode == "pollfail") mode_pollfail();
+  else if (mode == "cancelphase") mode_cancelphase();
   else { fprintf(stderr, "unknown mode %s\n", argv[1]); return 2; }
   return 0;
 }
